@@ -6,7 +6,7 @@ from vlib import hist
 from vlib.ctx import proof_gate
 from vlib.term import C, Nat, Raw, Some, coq, opt
 
-HEADER = "From Coq Require Import ZArith List.\nFrom TV Require Import Common.Harness C02.Model C02.Law C02.Corr."
+HEADER = "From Coq Require Import ZArith List.\nFrom TV Require Import Common.Harness C02.Model C02.Law C02.Dyn C02.Corr."
 CASE_T = "C02.Corr.case"
 PROPS = ["C02/Props.v"]
 DRIVER = "c02_driver.py"
@@ -17,7 +17,9 @@ POOL_NAMES = ["Eq(1)#a", "Eq(1)#b", "Eq(2)", "nan#a", "nan#b", "EqRaises", "None
               "Incoherent", "0", "0.0", "ArrayLike(no truth value)", "BadRepr(str/repr raise)"]
 MECH = {"any": "StaticAny", "changed": "StaticChanged", "fired": "StaticFired", "otc": "Otc", "otcany": "OtcAny",
         "obs": "Observe", "dotc": "Otc", "dobs": "Observe", "otcm": "Otc", "obsm": "Observe"}
-ONCE = ("otc_once", "otcany_once", "obs_once")      # self-unregistering handlers: environment, not in the model's handler list
+ONCE = ("otc_once", "otcany_once", "obs_once")      # handlers that unregister themselves while being notified
+MECH.update({"otc_once": "Otc", "otcany_once": "OtcAny", "obs_once": "Observe"})
+OBJ_LEVEL = ("otcany", "otcany_once")
 STATIC_ID = {"any": 0, "changed": 1, "fired": 2, "dotc": 3, "dobs": 4}
 STATICS = ("any", "changed", "fired", "dotc", "dobs")
 CMP = {"T": C("CTrue"), "F": C("CFalse"), "R": C("CRaise")}
@@ -28,9 +30,21 @@ def handlers_of(case):
     """Notifier-list order: class-level static wrappers (anytrait, _x_changed, _x_fired — has_traits.py l.626-631),
     then the dynamic ones on the trait in registration order, then the object-level ones (call_notifiers l.2296-2305)."""
     hs = [(STATIC_ID[s], s) for s in STATICS if s in case["statics"]]      # decorated handlers are hooked up in __init__
-    hs += [(10 + i, m) for i, m in enumerate(case["dyn"]) if m != "otcany" and m not in ONCE]
-    hs += [(10 + i, m) for i, m in enumerate(case["dyn"]) if m == "otcany"]      # the object's notifier list comes last
+    hs += [(10 + i, m) for i, m in enumerate(case["dyn"]) if m not in OBJ_LEVEL]
+    hs += [(10 + i, m) for i, m in enumerate(case["dyn"]) if m in OBJ_LEVEL]      # the object's notifier list comes last
     return hs
+
+
+def reacts_term(case):
+    """handler id -> reaction while being notified: self-unregistering kinds, then the explicit case["reacts"]."""
+    rs = [(Nat(i), C("RKill", Nat(i))) for i, m in handlers_of(case) if m in ONCE]
+    rs += [(Nat(op[2]), C("RKill", Nat(op[2]))) for op in case["ops"] if op[0] == "Register" and op[1] in ONCE]
+    for r in case.get("reacts", []):
+        if r[1] == "kill":
+            rs.append((Nat(r[0]), C("RKill", Nat(r[2]))))
+        else:
+            rs.append((Nat(r[0]), C("RSpawn", C("mkHandler", Nat(r[3]), C(MECH[r[2]]), r[3] in case["raises"]))))
+    return rs
 
 
 def oldv(o):
@@ -55,10 +69,18 @@ def to_term(case, ob):
     hs = [C("mkHandler", Nat(i), C(MECH[m]), i in case["raises"]) for i, m in handlers_of(case)]
     cfg = C("mkConfig", Raw("pool_eq"), Raw("pool_ne"),
             Raw("pool_validate_any" if case.get("variant") == "any" else "pool_validate"), Nat(case["default"]), kind, hs,
-            bool(case.get("orig")) and case["kind"] == "normal")
+            bool(case.get("orig")) and case["kind"] == "normal",
+            reacts_term(case))
     h = []
     for op, st in zip(case["ops"], ob["steps"]):
-        o = C(op[0], Nat(op[1])) if op[0] in ("Assign", "QuietAssign") else C(op[0])
+        if op[0] == "Register":
+            o = C("DRegister", C("mkHandler", Nat(op[2]), C(MECH[op[1]]), op[2] in case["raises"]))
+        elif op[0] == "Unregister":
+            o = C("DUnregister", Nat(op[1]))
+        elif op[0] == "Notify":
+            o = C("DNotify", bool(op[1]))
+        else:
+            o = C("DOp", C(op[0], Nat(op[1])) if op[0] in ("Assign", "QuietAssign") else C(op[0]))
         out = st["out"]
         if case["kind"] == "event" and op[0] == "Read" and out.startswith("Other"):
             out = "Ok"          # anything but AttributeError is wrong for an Event read; Ok triggers clause 1
@@ -98,13 +120,13 @@ def describe(case, ob, step, clause):
             "history so far %r" % (case["kind"], case["mode"], POOL_NAMES[case["default"]],
                                    ", stores the original value" if case.get("orig") else "",
                                    ", variant " + case["variant"] if case.get("variant") else "", handlers_of(case), case["raises"],
-                                   CLAUSE.get(clause, clause), step, op[0], " " + POOL_NAMES[op[1]] if len(op) > 1 else "",
+                                   CLAUSE.get(clause, clause), step, op[0], " " + POOL_NAMES[op[1]] if (len(op) > 1 and op[0] in ("Assign", "QuietAssign")) else "",
                                    ob["steps"][step], case["ops"][:step + 1]))
 
 
 def nontrivial(case, ob):
     sig = json.dumps([case["kind"], case["mode"], case["default"], case["statics"], case["dyn"], case["raises"], case["ops"],
-                      bool(case.get("orig")), case.get("variant", ""), case.get("sinkmode", "")])
+                      bool(case.get("orig")), case.get("variant", ""), case.get("sinkmode", ""), case.get("reacts", [])])
     nt = any(s["calls"] or s["out"] != "Ok" for s in ob["steps"])
     return sig, nt
 
@@ -126,13 +148,41 @@ def gen_case(rnd, ctx, maxlen):
         for _ in range(rnd.randint(1, 2)):
             once = "otcany_once" if all(m == "otcany" for m in dyn) and not statics else rnd.choice(ONCE)
             dyn.insert(rnd.randrange(len(dyn) + 1), once)
-    ids = [STATIC_ID[s] for s in statics] + [10 + i for i, m in enumerate(dyn) if m not in ONCE]
+    ids = [STATIC_ID[s] for s in statics] + [10 + i for i in range(len(dyn))]
     raises = sorted(rnd.sample(ids, min(len(ids), rnd.choice([0, 0, 1, 1, 2]))))
     ops = []
     cur = None
+    removable = [10 + i for i, m in enumerate(dyn) if m not in ONCE]     # registered, never self-unregistering
+    reacts = []
+    fun_kind = {10 + i: m for i, m in enumerate(dyn) if m in ("otc", "obs", "otcany")}    # possible victims / actors
+    next_id = 30
+    churn = rnd.random() < 0.4          # handlers registered / removed in the middle of this history
+    switching = rnd.random() < 0.25     # _trait_change_notify(False) / (True) in the middle of this history
+    off = False
     groups = [[0, 1, 10], [3, 4], [7, 8], [12, 13], [5], [11], [2], [6], [9], [14]]
     orig = kind == "normal" and rnd.random() < 0.2
     for _ in range(rnd.randint(1, maxlen)):
+        if switching and rnd.random() < 0.12:
+            off = not off
+            ops.append(["Notify", 0 if off else 1])
+            ctx.count("op:Notify:" + ("off" if off else "on"))
+            continue
+        if churn and rnd.random() < 0.18:
+            if removable and rnd.random() < 0.45:
+                ops.append(["Unregister", removable.pop(rnd.randrange(len(removable)))])
+                ctx.count("op:Unregister")
+            else:
+                k = rnd.choice(["otc", "obs", "otcany", "otcm", "obsm", "otc_once", "obs_once", "otcany_once"])
+                ops.append(["Register", k, next_id])
+                ctx.count("op:Register:" + k)
+                if k not in ONCE:
+                    removable.append(next_id)
+                if k in ("otc", "obs", "otcany"):
+                    fun_kind[next_id] = k
+                if rnd.random() < 0.15:
+                    raises = sorted(set(raises) | {next_id})
+                next_id += 1
+            continue
         r = rnd.random()
         if r < 0.12:
             ops.append(["Read"])
@@ -167,6 +217,18 @@ def gen_case(rnd, ctx, maxlen):
         ctx.count("op:Assign:" + POOL_NAMES[v])
         if v != REJ:
             cur = 0 if (v == ALIAS and not orig) else v
+    if churn and fun_kind and rnd.random() < 0.6:
+        # handlers that (un)register OTHER handlers while they are being notified
+        for _ in range(rnd.randint(1, 2)):
+            actor = rnd.choice(sorted(fun_kind))
+            if rnd.random() < 0.5 and len(fun_kind) > 1:
+                victim = rnd.choice([i for i in sorted(fun_kind) if i != actor])
+                reacts.append([actor, "kill", victim])
+                ctx.count("reaction:removes-another-handler")
+            else:
+                reacts.append([actor, "spawn", rnd.choice(["otc", "obs", "otcany"]), next_id])
+                next_id += 1
+                ctx.count("reaction:registers-a-handler")
     ctx.count("kind:" + (kind if kind == "event" else mode))
     ctx.count("handlers:%d" % len(ids))
     ctx.count("raising:%d" % len(raises))
@@ -186,9 +248,10 @@ def gen_case(rnd, ctx, maxlen):
     ctx.count("trait-variant:" + (variant or "validating-trait-type"))
     sinkmode = "default" if rnd.random() < 0.25 else "recording"
     ctx.count("exception-handler:" + sinkmode)
-    ctx.count("self-unregistering-handlers:%d" % sum(1 for m in dyn if m in ONCE))
+    ctx.count("self-unregistering-handlers:%d" % (sum(1 for m in dyn if m in ONCE) +
+                                                  sum(1 for op in ops if op[0] == "Register" and op[1] in ONCE)))
     return dict(kind=kind, mode=mode, default=default, statics=statics, dyn=dyn, raises=raises, ops=ops, orig=orig,
-                variant=variant, sinkmode=sinkmode)
+                variant=variant, sinkmode=sinkmode, reacts=reacts)
 
 
 def corpus():
@@ -238,6 +301,25 @@ def corpus():
                              (["changed"], ["otcany_once", "otc_once", "obs_once", "otcany", "otc", "obs"])):
             cs.append(dict(kind=kind, mode=mode, default=6, statics=statics, dyn=dyn, raises=[],
                            ops=[["Assign", 0], ["Assign", 2], ["Assign", 0]]))
+    churn = [["Assign", 0], ["Register", "otc", 30], ["Assign", 2], ["Register", "obs_once", 31], ["Register", "otcany", 32],
+             ["Assign", 0], ["Assign", 2], ["Unregister", 30], ["Assign", 0], ["Register", "otcany_once", 33], ["Unregister", 10],
+             ["Assign", 2], ["Unregister", 32], ["Unregister", 11], ["Assign", 0], ["Delete"], ["Assign", 2], ["Read"],
+             ["Register", "obsm", 34], ["Assign", 0], ["Register", "otc_once", 35], ["QuietAssign", 2], ["Assign", 0], ["Assign", 2]]
+    offon = [["Assign", 0], ["Notify", 0], ["Assign", 2], ["Read"], ["Delete"], ["Read"], ["Assign", 0], ["Register", "otc", 30],
+             ["Assign", 9], ["Notify", 1], ["Assign", 2], ["Notify", 0], ["QuietAssign", 9], ["Assign", 0], ["Notify", 0],
+             ["Delete"], ["Delete"], ["Notify", 1], ["Delete"], ["Assign", 2], ["Notify", 0], ["QuietAssign", 0], ["Assign", 3]]
+    for kind, mode in (("normal", "none"), ("normal", "identity"), ("normal", "equality"), ("event", "equality")):
+        # notification switched off and on in the middle (also ended by a quiet trait_set, accepted and rejected)
+        cs.append(dict(kind=kind, mode=mode, default=6, statics=["changed"], dyn=["obs", "otcany", "otc_once"], raises=[], ops=offon))
+        # handlers registered and removed in the middle; everything removed, then `del` with empty notifier lists
+        cs.append(dict(kind=kind, mode=mode, default=6, statics=[], dyn=["otc", "obs"], raises=[31], ops=churn))
+        cs.append(dict(kind=kind, mode=mode, default=6, statics=["changed"], dyn=["otc", "obs"], raises=[10, 33], ops=churn))
+        # during dispatch: 10 removes the LATER handler 11 (still served), 12 removes the EARLIER 10, 11 registers 40 and 41,
+        # the object-level 13 removes 12; 40 removes itself
+        cs.append(dict(kind=kind, mode=mode, default=6, statics=["changed"], dyn=["otc", "obs", "otc", "otcany"], raises=[11],
+                       reacts=[[10, "kill", 11], [12, "kill", 10], [11, "spawn", "obs", 40], [11, "spawn", "otcany", 41],
+                               [13, "kill", 12], [40, "kill", 40]],
+                       ops=[["Assign", 0], ["Assign", 2], ["Assign", 0], ["Register", "obs", 11], ["Assign", 2], ["Assign", 0]]))
     # traits that store the ORIGINAL value (Expression / AdaptsTo style): trigger of F22 (repaired) so that a reversal is detected
     for mode in ("none", "identity", "equality"):
         cs.append(dict(kind="normal", mode=mode, default=6, statics=["changed"], dyn=["obs", "otc"], raises=[], orig=True,
